@@ -119,6 +119,10 @@ SigVariants(svc) == {SigBy("K1", svc),
                      SigElem("K1", 4, 0, svc, 0),      \* undefined hash type
                      SigElem("K1", 131, 0, svc, 0),    \* SINGLE|ANYONECANPAY
                      SigElem("K1", 1, 0, svc, 1)}      \* made for the code after a code separator at position 1
+\* well formed under the encoding rules, but not decodable
+K1offc == KeyElem("K1", 12)
+K1offu == KeyElem("K1", 14)
+UndecSigs(svc) == {SigElem("K1", 1, cls, svc, 0) : cls \in UndecodableSigs}
 \* every DER shape class of BIP66 (SIGHASH_ALL appended), see ScriptVM!ShapeBody
 ShapeSigs == {SigElem("K1", 1, cls, 0, 0) : cls \in ShapeClasses}
 \* schnorr signatures for tapscript
